@@ -63,7 +63,11 @@ def build_shot(p: Dict[str, Any]):
     U = m.Unit
     dm = build_model(p)
     weapon = m.Weapon(U.Inch(p["sight_in"]), U.Inch(p.get("twist_in", 0.0)), U.Radian(p.get("zero_rad", 0.0)))
-    ammo = m.Ammo(dm, U.FPS(p["mv_fps"]))
+    if p.get("powder"):
+        # powder sensitivity in play: baseline temperature and modifier given, switch on
+        ammo = m.Ammo(dm, U.FPS(p["mv_fps"]), U.Celsius(p["powder"][0]), p["powder"][1], True)
+    else:
+        ammo = m.Ammo(dm, U.FPS(p["mv_fps"]))
     if p.get("vacuum"):
         atmo = m.Vacuum(U.Foot(p.get("alt_ft", 0.0)), U.Fahrenheit(p.get("temp_f", 59.0)))
     else:
